@@ -4942,6 +4942,8 @@ where
             return Ok((vertex_key, false));
         }
 
+        #[cfg(feature = "verif-hooks")]
+        crate::verif_failpoints::hit::<InsertionError>("dt.ins.post_repair")?;
         let vertex_uuid = self
             .tri
             .tds
@@ -5046,6 +5048,8 @@ where
                 });
             }
         }
+        #[cfg(feature = "verif-hooks")]
+        crate::verif_failpoints::hit::<InsertionError>("dt.ins.post_normalize")?;
         // Flip-based repair mutates cell orderings; restore canonical positive geometric
         // orientation before exposing the updated triangulation state.
         self.tri
@@ -5095,6 +5099,8 @@ where
             return Ok(());
         }
 
+        #[cfg(feature = "verif-hooks")]
+        crate::verif_failpoints::hit::<InsertionError>("dt.ins.post_check")?;
         self.is_valid()
             .map_err(|e| InsertionError::DelaunayValidationFailed {
                 message: e.to_string(),
@@ -5202,6 +5208,8 @@ where
 
         let topology = self.tri.topology_guarantee();
         if self.should_run_delaunay_repair_for(topology, 0) {
+            #[cfg(feature = "verif-hooks")]
+            crate::verif_failpoints::hit::<TriangulationValidationError>("dt.rm.repair")?;
             let seed_ref = seed_cells.as_deref();
             let (tds, kernel) = (&mut self.tri.tds, &self.tri.kernel);
             repair_delaunay_with_flips_k2_k3(tds, kernel, seed_ref, topology).map_err(|e| {
